@@ -127,10 +127,19 @@ class C08(Spec):
             if 'MALFORMED' in shape or 'BADITER' in line:
                 return ('%s:malformed' % name, 'after operation %d (%s): %s' % (i, op, line))
             if isinstance(exp, tuple):
+                # per callback: key, val, number of live heap blocks at the time of the call
                 got = [int(x) for x in out if re.match(r'-?\d+$', x)]
-                pairs = sorted(zip(got[0::2], got[1::2]))
+                if len(got) % 3:
+                    return ('clear:garbled', 'callback log %s' % (out,))
+                pairs = sorted(zip(got[0::3], got[1::3]))
                 if pairs != sorted(exp[1]):
                     return ('clear:wrong-callbacks', 'clear called back with %s, held %s' % (pairs, sorted(exp[1])))
+                # the node of an entry is released only after the user callback for it has returned:
+                # at the i-th callback exactly i of the n nodes have been freed
+                lives = got[2::3]
+                if lives != [len(pairs) - j for j in range(len(pairs))]:
+                    return ('clear:free-before-callback', 'live blocks seen by the callbacks of clear: %s, expected %s' % (
+                        lives, [len(pairs) - j for j in range(len(pairs))]))
             else:
                 got = [int(x) for x in out]
                 if got != exp:
@@ -150,10 +159,10 @@ class C08(Spec):
     def closure(self, tier):
         if tier == 'quick':
             cases, st = self.bfs([4, 60000, 0])
-            c2, st2 = self.bfs([3, 60000, 1])
+            c2, st2 = self.bfs([3, 60000, 2])
         else:
             cases, st = self.bfs([6, 400000, 0])
-            c2, st2 = self.bfs([4, 400000, 1])
+            c2, st2 = self.bfs([4, 400000, 2])
         cases += c2
         return cases, dict(states=st.get('states', 0) + st2.get('states', 0),
                            transitions=st.get('transitions', 0) + st2.get('transitions', 0),
@@ -199,3 +208,9 @@ class C08(Spec):
 
 
 SPEC = C08()
+
+MANIFEST = dict(
+    text='TBD',
+    note='TBD',
+    technique='Coq proof + model/code differential correspondence',
+    design='6 (C08)')
